@@ -90,6 +90,12 @@ configuration the worker does not abandon (see `single_reply_partial`). -/
 theorem spec_holds_on_model (c : Cfg) (hex : (final c).exhausted = false) : spec c (flat (trace c)) = true :=
   spec_final c hex
 
+/-- **the model is closed**: its two escape hatches — the `unmodelled` marker (Retry phase, phase out of range, no
+upstream request at DownRecvHeader) and a worker blocked forever in `waitNotify` — are unreachable for every
+configuration; every theorem above therefore speaks about runs that stay inside the modelled fragment. -/
+theorem model_is_closed (c : Cfg) (n : Nat) :
+    (∀ e ∈ (run c n init).trace, ∀ p, e ≠ Ev.unmodelled p) ∧ (run c n init).blocked = false := model_closed c n
+
 /-- the verdict annotation `mosnmodel` recomputes from the scripts (by counting invocations) reproduces the verdicts
 the model recorded — so the predicate evaluated by the driver on a token list that AGREES with the model is exactly the
 predicate of the two theorems above: on the unchanged tree an `A` line is an `S` line. -/
